@@ -413,7 +413,7 @@ func (x *Exec) step(fr *Frame, st *State, in ssa.Instruction) {
 		if gp, ok := p.(GlobalPtr); ok {
 			x.fail("store to package-level variable %s", gp.G.Name())
 		}
-		st.store(p, pt, x.conv(v, n.Val.Type(), pt))
+		st.store(p, pt, x.fnTerm(st, v))
 	case *ssa.UnOp:
 		fr.regs[n] = x.unop(fr, st, n)
 	case *ssa.BinOp:
@@ -488,7 +488,7 @@ func (x *Exec) step(fr *Frame, st *State, in ssa.Instruction) {
 		x.zeroElems(st, elem, id)
 		fr.regs[n] = SliceV{Ref: id, Off: IntLit(0), Len: ln, Cap: cp, Elem: elem}
 	case *ssa.MakeInterface:
-		fr.regs[n] = x.makeIface(st, n.X.Type(), x.val(fr, st, n.X))
+		fr.regs[n] = x.makeIface(st, n.X.Type(), x.fnTerm(st, x.val(fr, st, n.X)))
 	case *ssa.ChangeInterface:
 		fr.regs[n] = x.val(fr, st, n.X)
 	case *ssa.ChangeType:
